@@ -29,8 +29,8 @@ def maps_for(ctx, n_random):
     return ms
 
 
-def run_devices(ctx, jobs_spec, n_random_maps, observe="all"):
-    """jobs_spec: list of (name, cfg text, workers, simulate(num, depth) or None)"""
+def run_devices(ctx, jobs_spec, n_random_maps, observe="all", only_if=None):
+    """jobs_spec: list of (name, cfg text, workers, simulate(num, depth) or None); only_if(mismatch) -> bool restricts what is reported"""
     with cf.ThreadPoolExecutor(max_workers=5) as ex:
         fb = ex.submit(build_harness, ["devices"])
         futs = []
@@ -64,6 +64,9 @@ def run_devices(ctx, jobs_spec, n_random_maps, observe="all"):
         if m["line"] in seen:
             continue
         seen.add(m["line"])
+        if only_if is not None and not only_if(m):
+            ctx.extra["mismatches_left_to_other_properties"] = ctx.extra.get("mismatches_left_to_other_properties", 0) + 1
+            continue
         beh = json.loads(vlib.nth_line(allb, m["line"]))
         dtypes = ",".join(d["type"] for d in beh["scen"]["devs"]) or "terminals"
         sig = "%s:%s:%s" % (beh["family"], dtypes, m["what"].split(" of terminal")[0])
@@ -109,7 +112,6 @@ def c08(ctx):
         ("single2", dev_cfg("single", two, 4 if q else 5, rich=False), 4, None),
         ("singleN", dev_cfg("single", ["axle", "diff"], 3 if q else 4, rich=False), 4, None),
         ("consistent", dev_cfg("single", ["consistent"], 2 if q else 3, rich=False), 2, None),   # reads that already satisfy the constraint
-        ("follow", dev_cfg("follow", [], 3 if q else 4, rich=not q), 4, None),                   # own terminals following getters of state / command data
         ("sim", dev_cfg("single", ["invert", "gear", "axle", "diff"], 10 if q else 16, rich=not q), 2, (120 if q else 400, 12 if q else 18)),
     ]
     run_devices(ctx, jobs, 1 if q else 4, observe="state")
@@ -118,9 +120,7 @@ def c08(ctx):
                 "optionally pre-loaded states; every sequence of set-state / set-command / update up to the bound plus random longer "
                 "ones. TLC checks on every update step the constraint, the normal equations of the least-squares projection, "
                 "idempotence and the differential's waiting rule; the harness compares state, command, combined reads and the own "
-                "slots of every terminal after every action. Family follow: the device's own terminals follow scripted getters of state and "
-                "command data (absent / fresh datum / datum with an old timestamp), so that the update first pulls them (FollowLaw) and then "
-                "computes. Non-trivial = an update after at least one write.")
+                "slots of every terminal after every action. Non-trivial = an update after at least one write.")
     ctx.assumptions += ASSUME
     ctx.exhaustive = False
 
@@ -132,7 +132,6 @@ def c13(ctx):
         ("chain", dev_cfg("chain", [], 4 if q else 5, rich=False), 4, None),
         ("single", dev_cfg("single", ["invert", "gear", "axle"], 3, rich=not q), 4, None),
         ("simchain", dev_cfg("chain", [], 12, rich=not q), 2, (120 if q else 300, 14)),
-        ("follow", dev_cfg("follow", [], 3, rich=not q), 4, None),          # commands arriving through followed command getters
     ]
     run_devices(ctx, jobs, 1 if q else 4, observe="cmd")
     ctx.rule = ("Chains ext0 - D1 .. Dn - extn (n = 1..3) of inverters, gear trains and axles, commands entering at either end or at an "
